@@ -119,18 +119,24 @@ example : resumeConfig (runLoads codeStyle
       [.load (exLoad [2] true true) (some ⟨2, .killBefore⟩), .restart, .load (exLoad [3] true true) none]
       ⟨none, ⟨some [1], none⟩⟩) = some [3] := by decide
 
-/-- **what `Start` is needed for.**  Current order, intermediate lifetime 0: start-up 2 dies
-    after writing the new intermediate key (operation 7).  `Provision` of start-up 3 then
-    returns certificate 2 with key 3 — a mismatched pair; it is the renewal in `Start` (the
-    stored certificate is still due) that ends start-up 3 consistent, as `recovery` proves. -/
-theorem provision_alone_after_interrupted_renewal_mismatched :
+/-- **what the pair check is needed for, 1.**  The revision before the check (`keyFirstUnchecked`),
+    intermediate lifetime 0: start-up 2 dies after writing the new intermediate key (operation 7).
+    `Provision` of start-up 3 then returned certificate 2 with key 3 — a mismatched pair that was
+    live until `Start`'s renewal replaced it. -/
+theorem provision_alone_after_interrupted_renewal_mismatched_old_code :
     ∃ (evs : List Event) (c : Cfg) (m : Mem), Monotone 0 evs ∧ lastTime 0 evs ≤ c.now ∧
-      (exec none (provision codeOrder c) (boot (runHist codeOrder evs Disk.empty))).value? = some m ∧
+      (exec none (provision .keyFirstUnchecked c) (boot (runHist .keyFirstUnchecked evs Disk.empty))).value? = some m ∧
       m.inter.keyId ≠ m.inter.pub :=
   ⟨[⟨⟨1, 0⟩, none⟩, ⟨⟨2, 0⟩, some ⟨7, .crashAfter⟩⟩], ⟨3, 50⟩, ⟨⟨0, 0, 1 + rootLife, 0⟩, ⟨2, 0, 1, 3⟩⟩,
     by decide, by decide, by decide, by decide⟩
 
-/-! ### renewal at run time: the full recovery statement fails for the tree as it is -/
+/-- the same history under the current code: `Provision` detects the foreign key and returns a
+    fresh, matching pair -/
+example : (exec none (provision codeOrder ⟨3, 50⟩)
+      (boot (runHist codeOrder [⟨⟨1, 0⟩, none⟩, ⟨⟨2, 0⟩, some ⟨7, .crashAfter⟩⟩] Disk.empty))).value?
+    = some ⟨⟨0, 0, 1 + rootLife, 0⟩, ⟨4, 0, 53, 4⟩⟩ := by decide
+
+/-! ### renewal at run time: recovery failed before the pair check -/
 
 /-- start-up 1 (lifetime 0) leaves a chain whose intermediate is due; start-up 2 (lifetime 100)
     renews it in `Start`: the new key is written, the write of the new certificate REPORTS AN
@@ -141,16 +147,21 @@ theorem provision_alone_after_interrupted_renewal_mismatched :
 def runtimeWitness : List Step :=
   [.start ⟨⟨1, 0⟩, none⟩, .start ⟨⟨2, 100⟩, some ⟨8, .failAfter⟩⟩, .tick 3 (some ⟨3, .crashAfter⟩)]
 
-/-- **recovery fails once renewals at run time are interruptible** (`⊬` of the full statement in
-    Props.lean): after `runtimeWitness` storage holds certificate 3 — valid until 102, not due —
-    next to key 4.  The next uninterrupted start-up SUCCEEDS, loads that pair, does not renew
-    (nothing is due), and holds an intermediate key that does not belong to its intermediate
-    certificate.  The second maintenance pass did not start synced. -/
-theorem recovery_with_runtime_renewal_full_fails :
+/-- **what the pair check is needed for, 2: recovery_with_runtime_renewal failed for the old
+    code.**  After `runtimeWitness` storage holds certificate 3 — valid until 102, not due — next
+    to key 4.  Before the check, the next uninterrupted start-up SUCCEEDED, loaded that pair, did
+    not renew (nothing is due), and held an intermediate key that does not belong to its
+    certificate (this was known finding ca-unsynced-runtime-renewal-after-reported-failed-cert-write,
+    reproduced on the real code; corpus/C14/runtime-renewal.txt keeps the history as a regression). -/
+theorem recovery_with_runtime_renewal_old_code_fails :
     ∃ (sts : List Step) (c : Cfg) (m : Mem), StepsMonotone 0 sts ∧ lastStepTime 0 sts ≤ c.now ∧
-      ((Event.mk c none).run codeOrder (runSteps codeOrder sts World.empty).disk).value? = some m ∧
-      ¬ m.Consistent ∧ ¬ SyncedAtTicks codeOrder sts World.empty :=
+      ((Event.mk c none).run .keyFirstUnchecked (runSteps .keyFirstUnchecked sts World.empty).disk).value? = some m ∧
+      ¬ m.Consistent :=
   ⟨runtimeWitness, ⟨4, 100⟩, ⟨⟨0, 0, 1 + rootLife, 0⟩, ⟨3, 0, 102, 4⟩⟩,
-    by decide, by decide, by decide, by decide, by decide⟩
+    by decide, by decide, by decide, by decide⟩
+
+/-- the same history under the current code ends with a fresh, consistent intermediate -/
+example : ((Event.mk ⟨4, 100⟩ none).run codeOrder (runSteps codeOrder runtimeWitness World.empty).disk).value?
+    = some ⟨⟨0, 0, 1 + rootLife, 0⟩, ⟨5, 0, 104, 5⟩⟩ := by decide
 
 end CaddyModel.C14
